@@ -70,7 +70,8 @@ class SymSet:
         if not self._s:
             raise KeyError('pop from an empty set')
         keys = list(self._s)
-        i = symx.engine().choose(len(keys), 'setpop') if symx.have_engine() else 0
+        eng = symx.engine() if symx.have_engine() else None
+        i = eng.choose(len(keys), 'setpop') if (eng is not None and not getattr(eng, 'deterministic_pop', False)) else 0
         k = keys[i]
         del self._s[k]
         return k
